@@ -75,6 +75,9 @@ def oracle(plan, sim):
             done_ok = [f for f, _ in subs if meta[f]["ok"] and sim.futs[f].done() and not sim.futs[f].cancelled()]
             if done_ok:
                 out.append(("spurious-raise", f"raised failure of future {sim.err} (input {i}) although its twin {done_ok} succeeded"))
+            else:
+                will_ok = [f for f, _ in subs if meta[f]["ok"]]
+                out.append(("premature-raise", f"raised failure of future {sim.err} (input {i}) while its twin {will_ok} was still running and succeeds"))
     if sim.status == "done":
         if sorted(ins) != list(range(n)):
             out.append(("not-one-result-per-input", f"done but delivered inputs {sorted(ins)} for n={n}"))
